@@ -209,6 +209,16 @@ static size_t do_readall(LHAReader *r, uint8_t **bufp, size_t cap)
 	return tot;
 }
 
+/* Uninitialised-memory differential: with VERIF_STACK_FILL=<0..255> the stack region the library calls are about to use is filled
+ * with that byte before every case (and ASan's malloc_fill_byte does the same for fresh heap blocks).  A case whose output differs
+ * between two fill values let an uninitialised byte decide it. */
+static void __attribute__((noinline)) scribble_stack(void)
+{
+	static int fill = -2;
+	if (fill == -2) { const char *e = getenv("VERIF_STACK_FILL"); fill = e ? atoi(e) : -1; }
+	if (fill >= 0) { volatile unsigned char pad[96 * 1024]; size_t i; for (i = 0; i < sizeof pad; ++i) pad[i] = (unsigned char) fill; }
+}
+
 int main(int argc, char **argv)
 {
 	FILE *in; int mfd; unsigned long ncases = 0; const char *workdir;
@@ -244,6 +254,7 @@ int main(int argc, char **argv)
 		fprintf(out, "CASE %u\n", id);
 		fflush(out);
 		arm_watchdog();
+		scribble_stack();
 		allocmon_reset();
 		fds_before = count_fds();
 		memset(&src, 0, sizeof src);
